@@ -601,6 +601,8 @@ def run(tier):
                 out["fail"] = (o, stage, msg)
                 return g, gi, out
             out["ledgers"][o] = runner.execute(exe2, ledger=True, timeout=60)
+            if out["ledgers"][o]["code"] != 0 or out["ledgers"][o]["timeout"]:
+                out["seqfail"] = (o, out["ledgers"][o]["code"], out["ledgers"][o]["err"][-300:])
         return g, gi, out
 
     with ThreadPoolExecutor(max_workers=12) as ex:
@@ -611,6 +613,9 @@ def run(tier):
             o, stage, msg = out["fail"]
             ck.fail("C18:build:%s" % stage, "driver group %d does not build at -O%d (%s): %s" % (gi, o, stage, msg[-600:]), dict(files=out["files"]))
             continue
+        if out.get("seqfail"):
+            o_, code_, err_ = out["seqfail"]
+            ck.fail("C18:seq:abnormal-end:g%d:O%d" % (gi, o_), "driver group %d run as one program ends abnormally at -O%d (exit %s): %s" % (gi, o_, code_, err_), dict(files=out["files"], opt=o_))
         for o in opts:
             for k, c in enumerate(g):
                 sig = sigs[c[0]]
@@ -629,12 +634,59 @@ def run(tier):
             led = out["ledgers"][o]
             hmeta.append((len(heap), gi, o, out["files"]))
             heap.append(dict(e="reset", id="C18-%d-O%d" % (gi, o)))
-            if led["ledger"] and os.path.exists(led["ledger"]):
-                for ln in open(led["ledger"]):
-                    evl = json.loads(ln)
-                    if evl["e"] == "h":
-                        heap.append(evl)
+            heap += vlib.read_ledger(led["ledger"])
             heap.append(dict(e="end", normal=(led["code"] == 0 and not led["timeout"])))
+    # extern calls in loop headers and other contexts that are evaluated repeatedly or left early: only the ledger is judged
+    ctx_sigs = [i for i, s_ in enumerate(sigs) if s_["ret"] == "Z" and not s_["steal"] and s_["params"] and not any(p["ref"] for p in s_["params"])
+                and any(p["k"] not in PRIM for p in s_["params"])][:8]
+    if ctx_sigs:
+        lines, n = [], 0
+        for i in ctx_sigs:
+            s_ = sigs[i]
+            args = [VALUES[p["k"]][-1] for p in s_["params"]]
+            for j, (p, v) in enumerate(zip(s_["params"], args)):
+                lines.append("%s %s c%d_%d ist %s." % (TY[p["k"]][1], TY[p["k"]][0], n, j, dlit(p["k"], v)))
+            callv = "(ffi_%d %s)" % (i, " ".join("c%d_%d" % (n, j) for j in range(len(args))))
+            callt = "(ffi_%d %s)" % (i, " ".join(dlit(p["k"], v) for p, v in zip(s_["params"], args)))
+            # the callee returns -2: "(call plus ci) kleiner als 1" holds for ci = 0, 1, 2
+            lines += ["Die Zahl ci%d ist 0." % n,
+                      "Solange (%s plus ci%d) kleiner als 1 ist, mache:" % (callv, n), "\tErhöhe ci%d um 1." % n,
+                      "Speichere 0 in ci%d." % n,
+                      "Mache:", "\tErhöhe ci%d um 1." % n, "Solange (%s plus ci%d) kleiner als 1 ist." % (callt, n),
+                      "Speichere 0 in ci%d." % n,
+                      "Solange ci%d kleiner als 3 ist und %s ungleich 12345 ist, mache:" % (n, callv), "\tErhöhe ci%d um 1." % n,
+                      "Wenn %s kleiner als 0 ist, dann:" % callv, "\tSpeichere 7 in ci%d." % n,
+                      "Für jede Zahl cj%d von 1 bis (%s plus 4), mache:" % (n, callv), "\tSpeichere cj%d in ci%d." % (n, n),
+                      "Für jede Zahl ck%d von 1 bis 2 mit Schrittgröße (%s plus 3), mache:" % (n, callt), "\tSpeichere ck%d in ci%d." % (n, n),
+                      "Mache:", "\tWenn ci%d größer als 0 ist, verlasse die Schleife." % n, "\tErhöhe ci%d um 1." % n, "Solange %s ungleich 12345 ist." % callv,
+                      "Wiederhole:", "\tWenn %s gleich 12345 ist, verlasse die Schleife." % callv, "(%s plus 4) Mal." % callt, ""]
+            n += 1
+        csrc = C_PRELUDE + "\n" + "\n".join("\n".join(c_callee("ffi_%d" % i, sigs[i], protos[i])) for i in ctx_sigs) + "\n"
+        decls = sum((ddp_decl("ffi_%d" % i, sigs[i], False) for i in ctx_sigs), [])
+        # once at the top level of the module and once inside a function (scopes end differently)
+        body = ["Die Funktion kontexte gibt nichts zurück, macht:"] + ["\t" + l for l in lines if l] + ["Und kann so benutzt werden:", '\t"laufe durch die kontexte"', ""]
+        top = [l.replace("ci", "di").replace("cj", "dj").replace("ck", "dk").replace(" c", " d").replace("(c", "(d") if not l.startswith("\t") or True else l for l in lines]
+        files = {"m.ddp": 'Binde "Duden/Ausgabe" ein.\n\n' + PRELUDE_TYPES + "\n" + "\n".join(decls) + "\n" + "\n".join(body) + "\n" + "\n".join(lines) + "\nlaufe durch die kontexte.\n", "callee.c": csrc}
+        d = runner.newdir()
+        for f, t in files.items():
+            with open(os.path.join(d, f), "w") as fh:
+                fh.write(t)
+        pcc = subprocess.run(["gcc", "-c", "-O1", "-I", inc, "callee.c", "-o", "callee.o"], cwd=d, stdout=subprocess.PIPE, stderr=subprocess.STDOUT, text=True)
+        if pcc.returncode != 0:
+            raise Infra("generated C does not compile (contexts): %s" % pcc.stdout[-1500:])
+        for o in opts:
+            ok, stage, msg, exe = runner.build(d, "m.ddp", opt=o, extra_objs=[os.path.join(d, "callee.o")])
+            if not ok:
+                raise Infra("the loop-header context program does not build (%s): %s" % (stage, msg[-800:]))
+            led = runner.execute(exe, ledger=True, timeout=60)
+            if led["code"] != 0 or led["timeout"]:
+                ck.fail("C18:contexts:abnormal-end:O%d" % o, "the program calling extern functions from loop headers ends abnormally at -O%d (exit %s%s): %s" % (
+                    o, led["code"], ", time-out" if led["timeout"] else "", led["err"][-300:]), dict(files=files, opt=o))
+            hmeta.append((len(heap), "contexts", o, files))
+            heap.append(dict(e="reset", id="C18-contexts-O%d" % o))
+            heap += vlib.read_ledger(led["ledger"])
+            heap.append(dict(e="end", normal=(led["code"] == 0 and not led["timeout"])))
+        ck.cov["loop_header_contexts"] = len(ctx_sigs) * 6
     res, st = validate_monitor("FFITrace", "t.cfg", ["ffi"], recs, procs=12, sets=("bad",), extra_files={"t.cfg": T_CFG}, is_start=lambda r: True)
     ck.cov["states"] = st["distinct"]; ck.cov["transitions"] = st["generated"]
     ck.cov["tlc_runs"].append(dict(name="FFITrace", lines=st["lines"], wall_s=round(st["wall"], 1)))
@@ -664,7 +716,7 @@ def run(tier):
         if (gi, o) in hseen:
             continue
         hseen.add((gi, o))
-        ck.fail("C18:heap:g%d:O%d" % (gi, o), "driver group %d at -O%d: the allocation ledger is not a behaviour of Heap.tla at event %r (argument or result not released exactly once)" % (gi, o, heap[i]),
+        ck.fail("C18:heap:g%s:O%d" % (gi, o), "driver group %s at -O%d: the allocation ledger is not a behaviour of Heap.tla at event %r (argument or result not released exactly once)" % (gi, o, heap[i]),
                 dict(files=files, opt=o, event=heap[i]))
     ck.cov["traces_validated_against_impl"] = len(recs) + len(hmeta)
     ck.cov["evaluations"] = len(recs)
